@@ -95,6 +95,20 @@ Theorem C01_block_frame sc t hash txs h t' :
                                                decrypt (a_blob a) (a_loc a) = Some (r_tx e)).
 Proof. exact (w_block_connected_frame sc t hash txs h t'). Qed.
 
+Theorem C01_block_rows_kept sc t hash txs h t' a :
+  Inv t -> w_block_connected sc t (cache_block hash txs) h = Ok tt t' ->
+  In a (db_apps t) -> memN (a_loc a) txs = false -> In a (db_apps t').
+Proof. exact (w_block_connected_rows_kept sc t hash txs h t' a). Qed.
+
+(* "from then on reported as dispute_responded with exactly that penalty and dispute": while the
+   tracker row is held (until completion / purge / rejection: C04) its owner's get_appointment
+   answers with the tracker's dispute and penalty *)
+Theorem C01_reported_responded le t sc k ui :
+  Inv t -> In k (db_trks t) ->
+  amem (gk_users t) (t_user k) = true -> gk_get t (t_user k) = Some ui -> gk_height t < u_expiry ui ->
+  step le t (OGet (Some (t_user k)) (t_loc k)) sc = (fresh t, OGetRes (GetTrk (t_dispute k) (t_penalty k))).
+Proof. exact (get_reports_responded le t sc k ui). Qed.
+
 (* ---------- Watcher, late path: the dispute is already in the cache when the appointment arrives ---------- *)
 Theorem C01_add_triggered sc t signer loc b delay sig d r t' :
   ti_get (w_cache t) loc = Some d ->
@@ -182,6 +196,8 @@ Print Assumptions C01_handle_breach_spec.
 Print Assumptions C01_handle_breach_abort.
 Print Assumptions C01_block_breaches.
 Print Assumptions C01_block_frame.
+Print Assumptions C01_block_rows_kept.
+Print Assumptions C01_reported_responded.
 Print Assumptions C01_add_triggered.
 Print Assumptions C01_add_stored.
 Print Assumptions C01_watch_until_triggered.
